@@ -296,6 +296,7 @@ def job_read():
     def post(out, env):
         ctx, interp = out.ctx, out.interp
         obj = env["obj"]
+        env["obj0"] = clone(obj)  # the state before any read
         first = observe(interp, obj)
         for name in OBS:
             try:
@@ -308,6 +309,20 @@ def job_read():
         second = observe(interp, obj)
         for k, g in same_obs(first, second).items():
             ctx.prove(f"{target}::post.reads-are-idempotent", g)
+        # reading one property does not change what another one returns (each value is taken from its own copy of the
+        # state, before and after the other read)
+        for a in OBS:
+            for b in OBS:
+                if a == b:
+                    continue
+                try:
+                    alone = interp.load_attr(clone(env["obj0"]), b)
+                    ca = clone(env["obj0"])
+                    interp.load_attr(ca, a)
+                    after_a = interp.load_attr(ca, b)
+                except PyRaise:
+                    continue
+                ctx.prove(f"{target}::post.reading-one-property-does-not-change-what-another-returns", same(after_a, alone))
         p1(ctx, target, first)
         p3(ctx, target, clone(obj), first)
         # P4 lazy default
@@ -551,6 +566,22 @@ except Exception as exc:
 """
 
 
+REPLAY_CROSSREAD = """
+import copy, sys
+from iodata import IOData
+d = IOData()
+d.charge = 0
+d.atnums = [1, 1]
+alone = copy.copy(d).nelec
+c = copy.copy(d)
+c.charge  # a pure read
+after = c.nelec
+print("nelec read from a fresh copy:", alone, "; nelec after reading charge:", after)
+if alone != after:
+    print("REPRODUCED"); sys.exit(1)
+"""
+
+
 def run(chk):
     chk.functions += [f"{T}.__attrs_post_init__"] + [f"{T}.{g} (getter)" for g in OBS] + [f"{T}.{s} (setter)" for s in ("atcorenums", "charge", "nelec", "spinpol")]
     chk.functions += ["iodata.attrutils.validate_shape.<locals>.validator", "iodata.attrutils.convert_array_to.<locals>.converter"]
@@ -572,5 +603,7 @@ def run(chk):
             chk.set_replay(o.name, REPLAY_FRAME)
         elif "default-core-charges-follow-atomic-numbers.after-lazy-read" in o.name:
             chk.set_replay(o.name, REPLAY_STALE)
+        elif "reading-one-property-does-not-change-what-another-returns" in o.name:
+            chk.set_replay(o.name, REPLAY_CROSSREAD)
     chk.samples = [o.as_dict() for o in list(chk.ledger.obligations.values())[:6]]
     chk.notes["explanation"] = "C11: representation invariant + per-operation contracts proved from an arbitrary state (all histories by induction); exceptional frame included"
